@@ -169,9 +169,9 @@ func (d *c09DHCP) observe(e gen.Env, f []byte) {
 	case refdec.DHCPAck:
 		d.acked[mac] = rp.YI
 		d.nAck++
-	case refdec.DHCPNak:
-		delete(d.acked, mac)
 	}
+	// (a NAK does not clear the entry: the random DHCP frames of the traffic mix draw NAKs all the time while the lease
+	// stays; hunting a stale address is harmless)
 }
 
 type c09Run struct {
@@ -227,6 +227,8 @@ func (cr *c09Run) yield(point string) {
 type c09Worker struct {
 	cr   *c09Run
 	prog atomic.Int64
+	// plain counters owned by the goroutine, read after it has ended
+	huntsKnown, huntsOther int64
 }
 
 func (cr *c09Run) worker() *c09Worker {
@@ -287,7 +289,12 @@ func (cr *c09Run) apiWorker(proc int, seed int64, nOps int, wg *sync.WaitGroup) 
 	s, st := cr.st.s, cr.st
 	w := cr.worker()
 	ips := c09IPs()
+	// the API goroutines work for the whole run (nOps is only a safety cap): calls that all end within the first second
+	// would leave the packet loop alone for the rest of it
 	for i := 0; i < nOps && !cr.stop.Load(); i++ {
+		if i%64 == 63 {
+			time.Sleep(time.Duration(100+r.Intn(400)) * time.Microsecond)
+		}
 		mac := hw(c09MACs[r.Intn(len(c09MACs))])
 		ip := ips[r.Intn(len(ips))]
 		reg := r.Intn(len(c09RegMACs))
@@ -334,10 +341,17 @@ func (cr *c09Run) apiWorker(proc int, seed int64, nOps int, wg *sync.WaitGroup) 
 			})
 		case 6:
 			w.op("PrintTable", func() { s.PrintTable() })
-		case 7:
-			w.op("Capture", func() { s.Capture(mac) })
-		case 8:
-			w.op("Release", func() { s.Release(mac) })
+		case 7, 8:
+			// capture toggles are kept rarer than the other calls: a DHCP handshake needs the client's subnet to stay put for
+			// a few milliseconds, and without acknowledged leases half of the DHCP handler is never exercised
+			switch {
+			case r.Intn(12) != 0:
+				w.op("IsCaptured", func() { s.IsCaptured(mac) })
+			case k == 7:
+				w.op("Capture", func() { s.Capture(mac) })
+			default:
+				w.op("Release", func() { s.Release(mac) })
+			}
 		case 9:
 			w.op("IsCaptured", func() { s.IsCaptured(mac) })
 		case 10:
@@ -369,6 +383,8 @@ func (cr *c09Run) apiWorker(proc int, seed int64, nOps int, wg *sync.WaitGroup) 
 					if !a.IP.IsValid() {
 						a.IP = ips[r.Intn(6)]
 					}
+					w.huntsKnown += int64(len(as))
+					w.huntsOther++
 					for _, a := range append(as, a) {
 						if r.Intn(4) != 0 {
 							st.dhcp.StartHunt(a)
@@ -379,8 +395,19 @@ func (cr *c09Run) apiWorker(proc int, seed int64, nOps int, wg *sync.WaitGroup) 
 				})
 				break
 			}
+			if r.Intn(40) != 0 {
+				// (the ticker is a once-a-minute call: run at API speed it expires every pending offer before the client's
+				// REQUEST arrives and no lease is ever acknowledged)
+				w.op("dhcp.PrintTable", func() { st.dhcp.PrintTable() })
+				break
+			}
 			w.op("dhcp.MinuteTicker", func() {
-				st.dhcp.MinuteTicker(time.Now().Add([]time.Duration{0, time.Minute, time.Hour, 3 * time.Hour, 5 * time.Hour}[r.Intn(5)]))
+				// a clock beyond the lease time wipes every lease: rare, or no lease ever lives long enough to be raced on
+				off := []time.Duration{0, time.Minute, time.Hour, 3 * time.Hour}[r.Intn(4)]
+				if r.Intn(200) == 0 {
+					off = 5 * time.Hour
+				}
+				st.dhcp.MinuteTicker(time.Now().Add(off))
 			})
 		case 18:
 			w.op("handler.PrintTable", func() {
@@ -523,8 +550,8 @@ func (cr *c09Run) run() {
 	defer packet.VerifYield.Store(nil)
 	nAPI := 8 + r.Intn(7)
 	nFrames := int(c.N(120_000, 600_000))
-	nPurges := int(c.N(1_500, 8_000))
-	nOps := int(c.N(12_000, 60_000))
+	nPurges := 1 << 30 // until the run ends
+	nOps := 1 << 30
 	var wg sync.WaitGroup
 	// drainer
 	drained := new(atomic.Int64)
@@ -696,6 +723,15 @@ func (cr *c09Run) run() {
 	c.Obs("purges", purges.Load())
 	c.Obs("notifications_drained", drained.Load())
 	c.Obs("harness_ops", cr.progress())
+	var hk, ho int64
+	cr.wmu.Lock()
+	for _, w := range cr.workers {
+		hk += w.huntsKnown
+		ho += w.huntsOther
+	}
+	cr.wmu.Unlock()
+	c.Obs("dhcp_hunts_of_leased_addresses", hk)
+	c.Obs("dhcp_hunts_of_other_addresses", ho)
 	cr.dh.mu.Lock()
 	c.Obs("dhcp_leases_acknowledged_in_stress", cr.dh.nAck)
 	cr.dh.mu.Unlock()
